@@ -97,6 +97,33 @@ GENERATORS = [
 
 # ---------------------------------------------------------------- proof layer
 
+def generator_modules(gen):
+    """Lean modules written by translator `gen`."""
+    out = set()
+    for g, _src, rel in GENERATORS:
+        if g == gen:
+            path = os.path.normpath(os.path.join("MiniconfVerif", "Gen", rel))
+            out.add(path[:-len(".lean")].replace(os.sep, "."))
+    return out
+
+
+def import_closure(mod):
+    """Modules of this project that `mod` imports, transitively (read from the `import` lines)."""
+    seen, todo = set(), [mod]
+    while todo:
+        m = todo.pop()
+        if m in seen:
+            continue
+        seen.add(m)
+        path = os.path.join(LEAN, *m.split(".")) + ".lean"
+        try:
+            src = strip_lean_comments(open(path).read())
+        except FileNotFoundError:
+            continue
+        todo += [i for i in re.findall(r"^import\s+(\S+)", src, flags=re.M) if i.startswith("MiniconfVerif")]
+    return seen
+
+
 def strip_lean_comments(src):
     out, i, depth = [], 0, 0
     while i < len(src):
@@ -143,11 +170,21 @@ def forbidden_scan():
 def proof_layer(prop_id, allow_bv=False, thorough=False):
     """Build Props/<id> and audit axioms.  Returns dict with obligations, discharged,
     failures (list of str), axioms (per theorem)."""
-    res = {"obligations": 0, "discharged": 0, "failures": [], "axioms": {}, "theorems": []}
+    res = {"obligations": 0, "discharged": 0, "failures": [], "axioms": {}, "theorems": [], "translators_elsewhere": []}
     gen_fail = regen()
-    for g, e in gen_fail:
-        res["failures"].append(f"translator {g}: {e}")
     mod = f"MiniconfVerif.Props.{prop_id}"
+    # A translator that cannot read the source leaves its output module stale: every theorem that depends on that
+    # module is then no longer about the current code, so the failure is charged to exactly the properties whose
+    # theorem module imports the output (transitively).  A property that never looks at that part of the source
+    # keeps its proof: nothing it rests on is stale.
+    deps = import_closure(mod) if gen_fail else set()
+    for g, e in gen_fail:
+        outs = generator_modules(g)
+        if deps & outs:
+            res["failures"].append(f"translator {g}: {e}")
+        else:
+            res["translators_elsewhere"].append(f"{g} -> {sorted(outs)}: {e}")
+            print(f"note: translator {g} failed ({e}); {mod} does not import {sorted(outs)}", file=sys.stderr)
     prop_file = os.path.join(LEAN, "MiniconfVerif", "Props", f"{prop_id}.lean")
     ns, names = theorems_of(prop_file)
     res["obligations"] = len(names)
